@@ -1,18 +1,35 @@
-(* The parent setter  t.parent = p  (Model.set_parent): the write, field by field.
+(* The parent setter  t.parent = p  (Model.set_parent): exact effect (C16) and preservation of WF (C01).
 
    INDEX
+   == 1. the write, field by field ==
      eff_par s t p               the parent actually written: p, or the hidden WBS root when p = None and t is owned
      pw h t p2                   the heap after the four writes;  write_unfold : set_parent_write s t p = mkS (pw ...) (wroots s)
      Section Write (pc_up h, pc_down h, kids_nodup h, t and the new parent allocated):
        get_detach                get (detach_from_parent h t) x = with_kids (without t (kids (get h x))) (get h x)
        get_pw                    get (pw h t p2) x = newT x      (the whole record, for EVERY x)
        pw_par / pw_kids / pw_own / pw_tid / pw_preds / pw_succs / pw_hidden / pw_prio / pw_name / pw_est, length_pw
-     set_parent_effect           the exact effect of an accepted call (C16) - holds for every call whose
-                                 write is executed, whatever the guard said
+     set_parent_effect           the exact effect of the write (C16) - holds whatever the guard said
      set_parent_effect_kids_cases  the children lists, case by case
-   The preservation of WF is in ParentProofs2.v. *)
+     set_parent_effect_own       the owner, in Prop form (Sub)
+   == 2. preservation ==
+     Section Common (WF s, t allocated and not hidden, the written parent p2 allocated):
+       n_par .. n_hidden         the fields of the new heap, specialised
+       new_fin, new_pc, new_sym, new_dag, new_hid     the conjuncts that do not look at paths
+       new_own_outside / new_own_inside, wroot_outside, inside_unowned
+     attach_ok s t p'            what the guard establishes about the written parent p':
+                                 allocated, <> t, not below t, no link between subtree(t) and p' or its ancestors,
+                                 same WBS when t is owned, no id clash when t is not
+     Section Attach: a_Anc, a_Root, new_acy_a, new_sep_a, ids_mixed, new_ids_a, new_own_a ; attach_WF
+     Section Detach (p = None, t not owned): new_acy_d, new_sep_d, new_ids_d, new_own_d ; detach_WF
+     guard_some, guard_none_owned                   the guard / the invariant give attach_ok
+     set_parent_write_WF         accepted call
+     set_parent_WF               WF s -> pub s t -> (p = None \/ exists p', p = Some p' /\ p' < length (hp s)) ->
+                                 WF (fst (set_parent s t p))
+     set_parent_cases, set_parent_rejected          a rejected call returns the very same state
+     set_parent_shape, set_parent_pub               length / hidden flags / WBS table are stable *)
 From Coq Require Import Arith PeanoNat.
-From PJ Require Import Base.Prelude Graph.Model Graph.Invariant Graph.AncLemmas Graph.AncLemmas2 Graph.DepLemmas.
+From PJ Require Import Base.Prelude Graph.Model Graph.Invariant Graph.AncLemmas Graph.AncLemmas2
+  Graph.DepLemmas Graph.LinksProofs.
 Local Open Scope nat_scope.
 
 Definition eff_par (s : state) (t : obj) (p : option obj) : option obj :=
@@ -265,4 +282,580 @@ Proof.
   - rewrite (E1 A), (W B). reflexivity.
   - rewrite (E2 A). apply app_nil_r.
   - rewrite (E2 A), (W B). apply app_nil_r.
+Qed.
+
+(* the owner, in Prop form: exactly the allocated members of subtree(t) take the owner of the new parent *)
+Corollary set_parent_effect_own s t p x :
+  I_fin s -> I_pc s -> I_acy s -> t < length (hp s) -> (forall p', p = Some p' -> p' < length (hp s)) ->
+  let h := hp s in
+  let h' := hp (set_parent_write s t p) in
+  let p2 := eff_par s t p in
+  (forall p' w, p2 = Some p' -> own (get h p') = Some w -> x < length h -> Sub h t x -> own (get h' x) = Some w) /\
+  (p2 = None \/ (exists p', p2 = Some p' /\ own (get h p') = None) \/ ~ Sub h t x \/ length h <= x ->
+   own (get h' x) = own (get h x)).
+Proof.
+  intros F Pc Acy Ht Hp. cbv zeta. apply I_acy_acyclic in Acy.
+  destruct (set_parent_effect s t p F Pc Ht Hp) as (_ & _ & _ & _ & _ & O & _). cbv zeta in O. rewrite (O x).
+  split.
+  - intros p' w E Eo Lx Sx. rewrite E, Eo.
+    apply (insub_Sub _ _ _ Acy) in Sx. apply Nat.ltb_lt in Lx. rewrite Sx, Lx. reflexivity.
+  - intros [E|[[p' [E Eo]]|[N|G]]].
+    + rewrite E. reflexivity.
+    + rewrite E, Eo. reflexivity.
+    + destruct (eff_par s t p) as [p'|]; [|reflexivity]. destruct (own (get (hp s) p')); [|reflexivity].
+      apply (insub_false_iff _ _ _ Acy) in N. rewrite N. reflexivity.
+    + destruct (eff_par s t p) as [p'|]; [|reflexivity]. destruct (own (get (hp s) p')); [|reflexivity].
+      apply Nat.ltb_ge in G. rewrite G, andb_false_r. reflexivity.
+Qed.
+
+(* ================================================================== *)
+(* 2. preservation of WF *)
+
+
+Lemma Dep_same h h' : (forall x, preds (get h' x) = preds (get h x)) -> forall x y, Dep h x y -> Dep h' x y.
+Proof.
+  intros E x y H. induction H as [x p H|x p y H _ IH].
+  - apply Dep_one. rewrite E. exact H.
+  - eapply Dep_more; [rewrite E; exact H|exact IH].
+Qed.
+
+Lemma preds_In_lt h x y : In y (preds (get h x)) -> x < length h.
+Proof.
+  intro H. destruct (Nat.lt_ge_cases x (length h)) as [L|G]; [exact L|].
+  rewrite get_out_preds in H by exact G. destruct H.
+Qed.
+
+Lemma succs_In_lt h x y : In y (succs (get h x)) -> x < length h.
+Proof.
+  intro H. destruct (Nat.lt_ge_cases x (length h)) as [L|G]; [exact L|].
+  rewrite get_out_succs in H by exact G. destruct H.
+Qed.
+
+Lemma pubpar_Some h t p' : pubpar h t = Some p' -> par (get h t) = Some p'.
+Proof.
+  unfold pubpar. destruct (par (get h t)) as [q|]; [|discriminate].
+  destruct (hidden (get h q)); [discriminate|]. intro E; exact E.
+Qed.
+
+(* what the guard (or, for p = None on an owned task, the invariant) says about the written parent *)
+Definition attach_ok (s : state) (t p' : obj) : Prop :=
+  let h := hp s in
+  p' < length h /\ p' <> t /\ ~ Anc h p' t /\
+  (forall x l, x < length h -> Sub h t x -> In l (preds (get h x) ++ succs (get h x)) ->
+               l <> p' /\ ~ Anc h p' l) /\
+  (forall w, own (get h t) = Some w -> own (get h p') = Some w) /\
+  (own (get h t) = None ->
+     par (get h t) = Some p' \/
+     (forall r x y, Root h p' r -> Incoming h r [t] x -> InTree h r y -> tid (get h x) <> tid (get h y))).
+
+Section Common.
+Variable s : state.
+Variable t : obj.
+Variable p2 : option obj.
+Local Notation h := (hp s).
+Local Notation h' := (pw (hp s) t p2).
+Local Notation s' := (mkS (pw (hp s) t p2) (wroots s)).
+Hypothesis F : I_fin s.
+Hypothesis Pc : I_pc s.
+Hypothesis Acy : I_acy s.
+Hypothesis Sym : I_sym s.
+Hypothesis Dag : I_dag s.
+Hypothesis Sep : I_sep s.
+Hypothesis Ids : I_ids s.
+Hypothesis Hid : I_hid s.
+Hypothesis Own : I_own s.
+Hypothesis Ht : t < length h.
+Hypothesis Hth : hidden (get h t) = false.
+Hypothesis Hp2 : forall p', p2 = Some p' -> p' < length h.
+
+Lemma Hup : pc_up h.
+Proof. exact (I_pc_pc_up _ Pc). Qed.
+Lemma Hdown : pc_down h.
+Proof. exact (I_pc_pc_down _ Pc). Qed.
+Lemma Hnd : kids_nodup h.
+Proof. exact (I_pc_kids_nodup _ Pc). Qed.
+
+Lemma n_len : length h' = length h.
+Proof. apply length_pw; assumption. Qed.
+Lemma n_par x : par (get h' x) = if Nat.eqb x t then p2 else par (get h x).
+Proof. apply pw_par; [exact Hup|exact Hdown|exact Hnd|exact Ht|exact Hp2]. Qed.
+Lemma n_kids x : kids (get h' x) = without t (kids (get h x)) ++ (if onat_eqb p2 (Some x) then [t] else []).
+Proof. apply pw_kids; [exact Hup|exact Hdown|exact Hnd|exact Ht|exact Hp2]. Qed.
+Lemma n_own x : own (get h' x) = new_own h t p2 x.
+Proof. apply pw_own; [exact Hup|exact Hdown|exact Hnd|exact Ht|exact Hp2]. Qed.
+Lemma n_tid x : tid (get h' x) = tid (get h x).
+Proof. apply pw_tid; [exact Hup|exact Hdown|exact Hnd|exact Ht|exact Hp2]. Qed.
+Lemma n_preds x : preds (get h' x) = preds (get h x).
+Proof. apply pw_preds; [exact Hup|exact Hdown|exact Hnd|exact Ht|exact Hp2]. Qed.
+Lemma n_succs x : succs (get h' x) = succs (get h x).
+Proof. apply pw_succs; [exact Hup|exact Hdown|exact Hnd|exact Ht|exact Hp2]. Qed.
+Lemma n_hidden x : hidden (get h' x) = hidden (get h x).
+Proof. apply pw_hidden; [exact Hup|exact Hdown|exact Hnd|exact Ht|exact Hp2]. Qed.
+Lemma n_Hsame x : x <> t -> par (get h' x) = par (get h x).
+Proof. apply pw_Hsame; [exact Hup|exact Hdown|exact Hnd|exact Ht|exact Hp2]. Qed.
+Lemma n_par_t : par (get h' t) = p2.
+Proof. apply pw_par_t; [exact Hup|exact Hdown|exact Hnd|exact Ht|exact Hp2]. Qed.
+
+Lemma new_own_outside x : ~ Sub h t x -> new_own h t p2 x = own (get h x).
+Proof.
+  intro N. unfold new_own. destruct p2 as [p'|]; [|reflexivity].
+  destruct (own (get h p')); [|reflexivity].
+  destruct (memn x (subtree h t)) eqn:M; [|reflexivity].
+  exfalso. apply N. apply memn_In in M. unfold subtree in M. apply filter_In in M.
+  apply insub_true_Sub. apply M.
+Qed.
+
+Lemma new_own_inside x : x < length h -> Sub h t x ->
+  new_own h t p2 x = match p2 with
+                     | Some p' => match own (get h p') with Some w => Some w | None => own (get h x) end
+                     | None => own (get h x)
+                     end.
+Proof.
+  intros L S. unfold new_own. destruct p2 as [p'|]; [|reflexivity].
+  destruct (own (get h p')); [|reflexivity].
+  assert (M : memn x (subtree h t) = true).
+  { apply memn_In. apply In_subtree; [apply I_acy_acyclic; exact Acy|]. split; assumption. }
+  rewrite M. reflexivity.
+Qed.
+
+(* the hidden root of a WBS lies in no subtree but its own *)
+Lemma wroot_outside w : w < length (wroots s) -> ~ Sub h t (nth w (wroots s) 0).
+Proof.
+  intros Lw S. destruct Hid as (_ & B & C). destruct (C w Lw) as (_ & C2 & _).
+  assert (Hin : In (nth w (wroots s) 0) (wroots s)) by (apply nth_In; exact Lw).
+  assert (Lr : nth w (wroots s) 0 < length h) by (eapply dl_fin_wroots; eassumption).
+  destruct S as [E|A].
+  - apply (B _ Lr) in Hin. unfold obj in *. rewrite E in Hin. congruence.
+  - apply Anc_has_par in A. destruct A as [q Eq]. unfold obj in *. congruence.
+Qed.
+
+Lemma inside_unowned x : own (get h t) = None -> x < length h -> Sub h t x -> own (get h x) = None.
+Proof.
+  intros Eo L S. destruct (own (get h x)) as [w|] eqn:E; [|reflexivity]. exfalso.
+  destruct (proj1 (Own x w L) E) as [Lw R].
+  apply (Root_Sub _ _ _ _ S) in R.
+  pose proof (proj2 (Own t w Ht) (conj Lw R)) as E2. congruence.
+Qed.
+
+Theorem new_fin : I_fin s'.
+Proof.
+  split.
+  - intro x. cbv zeta. cbn [hp wroots]. rewrite n_len, n_par, n_kids, n_preds, n_succs, n_own.
+    split; [|split].
+    + intros q E. destruct (Nat.eqb x t); [apply Hp2; exact E|eapply dl_fin_par; eassumption].
+    + intros y Hy. rewrite !in_app_iff in Hy. destruct Hy as [[Hy|Hy]|[Hy|Hy]].
+      * apply In_without in Hy. destruct Hy as [Hy _]. eapply dl_fin_kids; eassumption.
+      * destruct (onat_eqb p2 (Some x)); [destruct Hy as [<-|[]]; exact Ht|destruct Hy].
+      * eapply dl_fin_preds; eassumption.
+      * eapply dl_fin_succs; eassumption.
+    + intros w E. unfold new_own in E. destruct p2 as [p'|].
+      * destruct (own (get h p')) as [w'|] eqn:Eo.
+        -- destruct (memn x (subtree h t)).
+           ++ inversion E; subst w'. eapply dl_fin_own; eassumption.
+           ++ eapply dl_fin_own; eassumption.
+        -- eapply dl_fin_own; eassumption.
+      * eapply dl_fin_own; eassumption.
+  - cbn [hp wroots]. rewrite n_len. apply F.
+Qed.
+
+Theorem new_pc : I_pc s'.
+Proof.
+  destruct Pc as [P1 P2]. split.
+  - intros c q. cbn [hp]. rewrite n_par, n_kids, in_app_iff, In_without.
+    destruct (Nat.eqb c t) eqn:E.
+    + apply Nat.eqb_eq in E; subst c. split.
+      * intro E2. right. rewrite E2, onat_eqb_refl. left; reflexivity.
+      * intros [[_ N]|H]; [exfalso; apply N; reflexivity|].
+        destruct (onat_eqb p2 (Some q)) eqn:Eo; [apply onat_eqb_eq in Eo; exact Eo|destruct H].
+    + apply Nat.eqb_neq in E. rewrite (P1 c q). split.
+      * intro H; left; split; assumption.
+      * intros [[H _]|H]; [exact H|].
+        destruct (onat_eqb p2 (Some q)); [destruct H as [H|[]]; congruence|destruct H].
+  - intro q. cbn [hp]. rewrite n_kids.
+    destruct (onat_eqb p2 (Some q)).
+    + apply NoDup_snoc; [apply NoDup_without, P2|]. rewrite In_without. intros [_ N]; apply N; reflexivity.
+    + rewrite app_nil_r. apply NoDup_without, P2.
+Qed.
+
+Theorem new_sym : I_sym s'.
+Proof.
+  destruct Sym as [S1 S2]. split.
+  - intros a b. cbn [hp]. rewrite n_preds, n_succs. apply S1.
+  - intro a. cbn [hp]. rewrite n_preds, n_succs. apply S2.
+Qed.
+
+Theorem new_dag : I_dag s'.
+Proof.
+  intros x H. apply (Dag x). cbn [hp] in H. eapply Dep_same; [|exact H].
+  intro y. symmetry. apply n_preds.
+Qed.
+
+Theorem new_hid : I_hid s'.
+Proof.
+  pose proof Hid as (A & B & C). split; [exact A|]. split.
+  - intros x Hx. cbn [hp wroots] in *. rewrite n_len in Hx. rewrite n_hidden. apply B; exact Hx.
+  - intros w Hw. cbn [hp wroots] in *. cbv zeta.
+    rewrite n_own, n_par, n_preds, n_succs.
+    pose proof (wroot_outside w Hw) as N.
+    rewrite (new_own_outside _ N).
+    assert (E : Nat.eqb (nth w (wroots s) 0) t = false).
+    { apply Nat.eqb_neq. intro E. apply N. left. exact E. }
+    rewrite E. apply (C w Hw).
+Qed.
+End Common.
+
+(* ================= attach: the written parent is Some p' ================= *)
+Section Attach.
+Variable s : state.
+Variable t p' : obj.
+Local Notation h := (hp s).
+Local Notation h' := (pw (hp s) t (Some p')).
+Local Notation s' := (mkS (pw (hp s) t (Some p')) (wroots s)).
+Hypothesis W : WF s.
+Hypothesis Ht : t < length h.
+Hypothesis Hth : hidden (get h t) = false.
+Hypothesis G : attach_ok s t p'.
+
+Ltac useW := pose proof W as (F & Pc & Acy & Sym & Dag & Sep & Ids & Hid & Own);
+             pose proof G as (Lp & Hpt & Hnb & Hlk & Hown & Hids).
+
+Lemma Hp2a : forall q, Some p' = Some q -> q < length h.
+Proof. useW. intros q E. inversion E; subst q. exact Lp. Qed.
+
+Lemma Hacy : acyclic h.
+Proof. useW. apply I_acy_acyclic. exact Acy. Qed.
+
+Lemma a_Hsame x : x <> t -> par (get h' x) = par (get h x).
+Proof. useW. apply n_Hsame; try assumption. apply Hp2a. Qed.
+
+Lemma a_par_t : par (get h' t) = Some p'.
+Proof. useW. apply n_par_t; try assumption. apply Hp2a. Qed.
+
+Lemma a_Anc x a :
+  Anc h' x a <->
+  (~ Sub h t x /\ Anc h x a) \/ (Sub h t x /\ ((Anc h x a /\ Sub h t a) \/ a = p' \/ Anc h p' a)).
+Proof. useW. apply (attach_Anc h h' t a_Hsame Hacy p' a_par_t Hpt Hnb). Qed.
+
+Lemma a_Root x r : Root h' x r <-> (~ Sub h t x /\ Root h x r) \/ (Sub h t x /\ Root h p' r).
+Proof. useW. apply (attach_Root h h' t a_Hsame Hacy p' a_par_t Hpt Hnb). Qed.
+
+Theorem new_acy_a : I_acy s'.
+Proof.
+  useW. apply I_acy_acyclic. cbn [hp].
+  apply (attach_acyclic h h' t a_Hsame Hacy p' a_par_t Hpt Hnb).
+Qed.
+
+Theorem new_sep_a : I_sep s'.
+Proof.
+  useW. destruct Sym as [S1 _].
+  intros a b Hb. cbn [hp] in *. rewrite n_preds in Hb by (try assumption; apply Hp2a).
+  destruct (Sep a b Hb) as [N1 N2]. split; intro HA; apply a_Anc in HA.
+  - destruct HA as [[_ HA]|[HS [[HA _]|HA]]]; [exact (N1 HA)|exact (N1 HA)|].
+    assert (La : a < length h) by (eapply preds_In_lt; exact Hb).
+    destruct (Hlk a b La HS) as [M1 M2]; [apply in_or_app; left; exact Hb|].
+    destruct HA as [HA|HA]; [exact (M1 HA)|exact (M2 HA)].
+  - destruct HA as [[_ HA]|[HS [[HA _]|HA]]]; [exact (N2 HA)|exact (N2 HA)|].
+    apply S1 in Hb.
+    assert (Lb : b < length h) by (eapply succs_In_lt; exact Hb).
+    destruct (Hlk b a Lb HS) as [M1 M2]; [apply in_or_app; right; exact Hb|].
+    destruct HA as [HA|HA]; [exact (M1 HA)|exact (M2 HA)].
+Qed.
+
+(* an incoming task and a task of the receiving tree with the same id are the same task *)
+Lemma ids_mixed a b r :
+  a < length h -> b < length h -> Sub h t a -> Root h p' r -> Root h b r ->
+  tid (get h a) = tid (get h b) -> a = b.
+Proof.
+  useW. intros La Lb Sa Rp Rb E.
+  destruct (own (get h t)) as [w|] eqn:Eo.
+  - pose proof (Hown w eq_refl) as Eop.
+    destruct (proj1 (Own t w Ht) Eo) as [Lw Rt].
+    destruct (proj1 (Own p' w Lp) Eop) as [_ Rp'].
+    assert (Er : r = nth w (wroots s) 0) by exact (Root_unique _ _ _ _ Rp Rp'). subst r.
+    apply (Ids a b (nth w (wroots s) 0)); try assumption.
+    apply (Root_Sub _ _ _ _ Sa). exact Rt.
+  - destruct (Hids eq_refl) as [Epar|Hcl].
+    + apply (Ids a b r); try assumption.
+      apply (Root_Sub _ _ _ _ Sa). apply (Root_par _ _ _ r Epar). exact Rp.
+    + destruct (Root_exists h a Hacy) as [ra Ra].
+      destruct (Nat.eq_dec ra r) as [->|Nr].
+      * apply (Ids a b r); assumption.
+      * exfalso. apply (Hcl r a b Rp); [| |exact E].
+        -- split; [exact La|]. split.
+           ++ exists t. split; [left; reflexivity|exact Sa].
+           ++ intro R. apply Nr. exact (Root_unique _ _ _ _ Ra R).
+        -- split; assumption.
+Qed.
+
+Theorem new_ids_a : I_ids s'.
+Proof.
+  useW. intros a b r La Lb Ra Rb E. cbn [hp] in *.
+  rewrite n_len in La, Lb by apply Hp2a.
+  rewrite !n_tid in E by (try assumption; apply Hp2a).
+  apply a_Root in Ra. apply a_Root in Rb.
+  destruct Ra as [[Na Ra]|[Sa Ra]], Rb as [[Nb Rb]|[Sb Rb]].
+  - apply (Ids a b r); assumption.
+  - symmetry. apply (ids_mixed b a r); try assumption. symmetry; exact E.
+  - apply (ids_mixed a b r); assumption.
+  - destruct (Root_exists h t Hacy) as [r0 R0].
+    apply (Ids a b r0); try assumption; apply (Root_Sub h t _ r0); assumption.
+Qed.
+
+Theorem new_own_a : I_own s'.
+Proof.
+  useW. intros x w Lx. cbn [hp wroots] in *. rewrite n_len in Lx by apply Hp2a.
+  rewrite n_own by (try assumption; apply Hp2a). rewrite a_Root.
+  destruct (Sub_dec h t x Hacy) as [Sx|Nx].
+  - rewrite (new_own_inside s t (Some p') Acy Hp2a x Lx Sx).
+    destruct (own (get h p')) as [w'|] eqn:Eo.
+    + split.
+      * intro E; inversion E; subst w'. destruct (proj1 (Own p' w Lp) Eo) as [Lw Rw].
+        split; [exact Lw|]. right; split; assumption.
+      * intros [Lw [[Nx _]|[_ Rp]]]; [contradiction|].
+        pose proof (proj2 (Own p' w Lp) (conj Lw Rp)) as E. congruence.
+    + assert (Eo' : own (get h t) = None).
+      { destruct (own (get h t)) as [w0|] eqn:E0; [|reflexivity]. pose proof (Hown w0 eq_refl) as X. congruence. }
+      rewrite (inside_unowned s t Own Ht x Eo' Lx Sx). split; [discriminate|].
+      intros [Lw [[Nx _]|[_ Rp]]]; [contradiction|].
+      pose proof (proj2 (Own p' w Lp) (conj Lw Rp)) as E. congruence.
+  - rewrite (new_own_outside s t (Some p') Hp2a x Nx). split.
+    + intro E. destruct (proj1 (Own x w Lx) E) as [Lw R]. split; [exact Lw|]. left; split; assumption.
+    + intros [Lw [[_ R]|[Sx _]]]; [|contradiction]. apply (Own x w Lx). split; assumption.
+Qed.
+
+Theorem attach_WF : WF s'.
+Proof.
+  useW.
+  split; [apply new_fin; try assumption; apply Hp2a|].
+  split; [apply new_pc; try assumption; apply Hp2a|].
+  split; [exact new_acy_a|].
+  split; [apply new_sym; try assumption; apply Hp2a|].
+  split; [apply new_dag; try assumption; apply Hp2a|].
+  split; [exact new_sep_a|].
+  split; [exact new_ids_a|].
+  split; [apply new_hid; try assumption; apply Hp2a|].
+  exact new_own_a.
+Qed.
+End Attach.
+
+(* ================= detach: nothing is written as parent (p = None, t not owned) ================= *)
+Section Detach.
+Variable s : state.
+Variable t : obj.
+Local Notation h := (hp s).
+Local Notation h' := (pw (hp s) t None).
+Local Notation s' := (mkS (pw (hp s) t None) (wroots s)).
+Hypothesis W : WF s.
+Hypothesis Ht : t < length h.
+Hypothesis Hth : hidden (get h t) = false.
+Hypothesis HoN : own (get h t) = None.
+
+Ltac useWd := pose proof W as (F & Pc & Acy & Sym & Dag & Sep & Ids & Hid & Own).
+
+Lemma Hp2d : forall q, @None obj = Some q -> q < length h.
+Proof. intros q E. discriminate E. Qed.
+
+Lemma Hacy_d : acyclic h.
+Proof. useWd. apply I_acy_acyclic. exact Acy. Qed.
+
+Lemma d_Hsame x : x <> t -> par (get h' x) = par (get h x).
+Proof. useWd. apply n_Hsame; try assumption. apply Hp2d. Qed.
+
+Lemma d_par_t : par (get h' t) = None.
+Proof. useWd. apply n_par_t; try assumption. apply Hp2d. Qed.
+
+Lemma d_Root x r : Root h' x r <-> (~ Sub h t x /\ Root h x r) \/ (Sub h t x /\ r = t).
+Proof. apply (detach_Root h h' t d_Hsame Hacy_d d_par_t). Qed.
+
+Theorem new_acy_d : I_acy s'.
+Proof. apply I_acy_acyclic. cbn [hp]. apply (detach_acyclic h h' t d_Hsame Hacy_d d_par_t). Qed.
+
+Theorem new_sep_d : I_sep s'.
+Proof.
+  useWd. intros a b Hb. cbn [hp] in *. rewrite n_preds in Hb by (try assumption; apply Hp2d).
+  destruct (Sep a b Hb) as [N1 N2].
+  split; intro HA; apply (detach_Anc_sub h h' t d_Hsame Hacy_d d_par_t) in HA; contradiction.
+Qed.
+
+Theorem new_ids_d : I_ids s'.
+Proof.
+  useWd. intros a b r La Lb Ra Rb E. cbn [hp] in *.
+  rewrite n_len in La, Lb by apply Hp2d.
+  rewrite !n_tid in E by (try assumption; apply Hp2d).
+  apply d_Root in Ra. apply d_Root in Rb.
+  destruct Ra as [[Na Ra]|[Sa Ra]], Rb as [[Nb Rb]|[Sb Rb]].
+  - apply (Ids a b r); assumption.
+  - exfalso. subst r. apply Na. destruct Ra as [Ra _]. exact Ra.
+  - exfalso. subst r. apply Nb. destruct Rb as [Rb _]. exact Rb.
+  - destruct (Root_exists h t Hacy_d) as [r0 R0].
+    apply (Ids a b r0); try assumption; apply (Root_Sub h t _ r0); assumption.
+Qed.
+
+Theorem new_own_d : I_own s'.
+Proof.
+  useWd. intros x w Lx. cbn [hp wroots] in *. rewrite n_len in Lx by apply Hp2d.
+  rewrite n_own by (try assumption; apply Hp2d). rewrite d_Root.
+  assert (E : new_own h t None x = own (get h x)) by reflexivity. rewrite E.
+  destruct (Sub_dec h t x Hacy_d) as [Sx|Nx].
+  - rewrite (inside_unowned s t Own Ht x HoN Lx Sx). split; [discriminate|].
+    intros [Lw [[Nx _]|[_ Er]]]; [contradiction|]. exfalso.
+    destruct Hid as (_ & B & _).
+    assert (Hin : In (nth w (wroots s) 0) (wroots s)) by (apply nth_In; exact Lw).
+    unfold obj in *. rewrite Er in Hin. apply (B t Ht) in Hin. congruence.
+  - split.
+    + intro E1. destruct (proj1 (Own x w Lx) E1) as [Lw R]. split; [exact Lw|]. left; split; assumption.
+    + intros [Lw [[_ R]|[Sx _]]]; [|contradiction]. apply (Own x w Lx). split; assumption.
+Qed.
+
+Theorem detach_WF : WF s'.
+Proof.
+  useWd.
+  split; [apply new_fin; try assumption; apply Hp2d|].
+  split; [apply new_pc; try assumption; apply Hp2d|].
+  split; [exact new_acy_d|].
+  split; [apply new_sym; try assumption; apply Hp2d|].
+  split; [apply new_dag; try assumption; apply Hp2d|].
+  split; [exact new_sep_d|].
+  split; [exact new_ids_d|].
+  split; [apply new_hid; try assumption; apply Hp2d|].
+  exact new_own_d.
+Qed.
+End Detach.
+
+(* ================= the guard ================= *)
+Lemma Incoming_singleton_clash h p' t :
+  acyclic h ->
+  id_clash h p' [t] = Ok false ->
+  forall r x y, Root h p' r -> Incoming h r [t] x -> InTree h r y -> tid (get h x) <> tid (get h y).
+Proof.
+  intros A E r x y R.
+  destruct (id_clash_spec h p' [t] A) as (r0 & b & _ & R0 & Eb & Hb).
+  rewrite E in Eb. inversion Eb; subst b.
+  assert (Er : r = r0) by exact (Root_unique _ _ _ _ R R0). subst r0.
+  destruct (proj1 Hb eq_refl) as [_ H2]. apply H2.
+Qed.
+
+(* an accepted call with p = Some p' *)
+Lemma guard_some s t p' :
+  I_acy s -> set_parent_guard s t (Some p') = OK -> p' < length (hp s) -> attach_ok s t p'.
+Proof.
+  intros Acy G Lp. apply I_acy_acyclic in Acy.
+  unfold set_parent_guard in G. cbv zeta in G.
+  destruct (onat_eqb (Some p') (Some t)) eqn:E1; cbn [failif bind] in G; [discriminate|].
+  assert (Hpt : p' <> t).
+  { intro E. subst p'. rewrite onat_eqb_refl in E1. discriminate. }
+  destruct (anc (hp s) p') as [a| |k] eqn:Ea;
+    [|destruct (own (get (hp s) t)) as [w|];
+      [destruct (negb (onat_eqb (own (get (hp s) p')) (Some w)))
+      |destruct (onat_eqb (pubpar (hp s) t) (Some p')); [|destruct (id_clash (hp s) p' [t]) as [[|]| |]]];
+      cbn [failif bind] in G; discriminate ..].
+  assert (G2 : (do _ <- failif (memn t a) Err; failif (links_bad (hp s) t (p' :: a)) Err) = OK).
+  { destruct (own (get (hp s) t)) as [w|];
+      [destruct (negb (onat_eqb (own (get (hp s) p')) (Some w)))
+      |destruct (onat_eqb (pubpar (hp s) t) (Some p')); [|destruct (id_clash (hp s) p' [t]) as [[|]| |]]];
+      cbn [failif bind] in G; try discriminate; exact G. }
+  destruct (memn t a) eqn:E4; cbn [failif bind] in G2; [discriminate|].
+  destruct (links_bad (hp s) t (p' :: a)) eqn:E5; cbn [failif] in G2; [discriminate|].
+  apply memn_false in E4.
+  pose proof (anc_Ok_In _ _ _ Ea) as HA.
+  split; [exact Lp|]. split; [exact Hpt|]. split; [intro H; apply E4; apply HA; exact H|].
+  split; [|split].
+  - intros x l Lx Sx Hl.
+    pose proof (proj1 (links_bad_false (hp s) t (p' :: a) Acy) E5 x l Lx Sx Hl) as N.
+    split; [intro E; apply N; left; symmetry; exact E|intro H; apply N; right; apply HA; exact H].
+  - intros w Eo. rewrite Eo in G. cbn [bind] in G.
+    destruct (onat_eqb (own (get (hp s) p')) (Some w)) eqn:E2; [apply onat_eqb_eq in E2; exact E2|].
+    cbn [negb failif bind] in G. discriminate.
+  - intro Eo. rewrite Eo in G. cbn [bind] in G.
+    destruct (onat_eqb (pubpar (hp s) t) (Some p')) eqn:E2.
+    + left. apply onat_eqb_eq in E2. apply pubpar_Some. exact E2.
+    + right. destruct (id_clash (hp s) p' [t]) as [[|]| |] eqn:E3; cbn [failif bind] in G; try discriminate.
+      apply Incoming_singleton_clash; assumption.
+Qed.
+
+(* p = None on an owned task: the written parent is the hidden root of its WBS *)
+Lemma guard_none_owned s t w :
+  WF s -> t < length (hp s) -> hidden (get (hp s) t) = false -> own (get (hp s) t) = Some w ->
+  attach_ok s t (nth w (wroots s) 0).
+Proof.
+  intros (F & Pc & Acy & Sym & Dag & Sep & Ids & Hid & Own) Ht Hth Eo.
+  assert (Lw : w < length (wroots s)) by (eapply dl_fin_own; eassumption).
+  set (r := nth w (wroots s) 0).
+  assert (Hin : In r (wroots s)) by (apply nth_In; exact Lw).
+  assert (Lr : r < length (hp s)) by (eapply dl_fin_wroots; eassumption).
+  destruct Hid as (_ & B & C). destruct (C w Lw) as (C1 & C2 & C3 & C4). fold r in C1, C2, C3, C4.
+  assert (NA : forall a, ~ Anc (hp s) r a).
+  { intros a A. apply Anc_has_par in A. destruct A as [q Eq]. congruence. }
+  split; [exact Lr|]. split; [|split; [apply NA|split; [|split]]].
+  - intro E. apply (B r Lr) in Hin. rewrite E in Hin. congruence.
+  - intros x l Lx Sx Hl. split; [|apply NA]. intro E. subst l. destruct Sym as [S1 _].
+    apply in_app_or in Hl. destruct Hl as [Hl|Hl].
+    + apply S1 in Hl. rewrite C4 in Hl. destruct Hl.
+    + apply S1 in Hl. rewrite C3 in Hl. destruct Hl.
+  - intros w' E. rewrite Eo in E. inversion E; subst w'. exact C1.
+  - intro E. congruence.
+Qed.
+
+(* ================= preservation ================= *)
+Theorem set_parent_write_WF s t p :
+  WF s -> pub s t -> (forall p', p = Some p' -> p' < length (hp s)) ->
+  set_parent_guard s t p = OK -> WF (set_parent_write s t p).
+Proof.
+  intros W [Ht Hth] Hp G. rewrite write_unfold.
+  pose proof W as (F & Pc & Acy & _).
+  destruct p as [p'|].
+  - assert (E : eff_par s t (Some p') = Some p') by reflexivity. rewrite E.
+    apply attach_WF; try assumption. apply guard_some; try assumption. apply Hp; reflexivity.
+  - unfold eff_par. destruct (own (get (hp s) t)) as [w|] eqn:Eo.
+    + apply attach_WF; try assumption. apply guard_none_owned; assumption.
+    + apply detach_WF; assumption.
+Qed.
+
+Lemma set_parent_cases s t p :
+  (set_parent_guard s t p = OK /\ set_parent s t p = (set_parent_write s t p, OK)) \/
+  (set_parent_guard s t p <> OK /\ fst (set_parent s t p) = s /\ snd (set_parent s t p) <> OK).
+Proof.
+  unfold set_parent.
+  destruct (mk_cases (set_parent_guard s t p) s (set_parent_write s t p)) as [[E M]|[E M]]; rewrite M.
+  - left; split; [exact E|reflexivity].
+  - right; split; [exact E|]. split; [reflexivity|exact E].
+Qed.
+
+(* MAIN: the parent setter preserves WF, accepted or not.  The new parent may be the hidden root of a WBS
+   (roots.append(t), wbs // t); the task being moved may not (no Python expression names that object). *)
+Theorem set_parent_WF s t p :
+  WF s -> pub s t -> (p = None \/ exists p', p = Some p' /\ p' < length (hp s)) ->
+  WF (fst (set_parent s t p)).
+Proof.
+  intros W Pt Hp. destruct (set_parent_cases s t p) as [[G E]|[_ [E _]]]; rewrite E; [|exact W].
+  cbn [fst]. apply set_parent_write_WF; try assumption.
+  intros p' Ep. destruct Hp as [Hp|[q [Hq Lq]]]; [congruence|]. rewrite Hq in Ep. inversion Ep; subst q. exact Lq.
+Qed.
+
+(* a rejected call returns the very same state (C15) *)
+Theorem set_parent_rejected s t p : snd (set_parent s t p) <> OK -> fst (set_parent s t p) = s.
+Proof.
+  intro H. destruct (set_parent_cases s t p) as [[_ E]|[_ [E _]]]; [|exact E].
+  rewrite E in H. exfalso; apply H; reflexivity.
+Qed.
+
+(* length, hidden flags, WBS table: stable *)
+Theorem set_parent_shape s t p :
+  I_fin s -> I_pc s -> t < length (hp s) -> (forall p', p = Some p' -> p' < length (hp s)) ->
+  let s' := fst (set_parent s t p) in
+  length (hp s') = length (hp s) /\ wroots s' = wroots s /\
+  (forall x, hidden (get (hp s') x) = hidden (get (hp s) x)).
+Proof.
+  intros F Pc Ht Hp. cbv zeta.
+  destruct (set_parent_cases s t p) as [[_ E]|[_ [E _]]]; rewrite E; [|repeat split; reflexivity].
+  cbn [fst]. destruct (set_parent_effect s t p F Pc Ht Hp) as (A & B & _ & _ & _ & _ & R). cbv zeta in *.
+  split; [exact B|]. split; [exact A|]. intro x. specialize (R x). unfold rest in R. congruence.
+Qed.
+
+Theorem set_parent_pub s t p x :
+  I_fin s -> I_pc s -> t < length (hp s) -> (forall p', p = Some p' -> p' < length (hp s)) ->
+  (pub (fst (set_parent s t p)) x <-> pub s x).
+Proof.
+  intros F Pc Ht Hp. destruct (set_parent_shape s t p F Pc Ht Hp) as (A & _ & C). cbv zeta in *.
+  unfold pub. rewrite A, C. tauto.
 Qed.
